@@ -17,7 +17,9 @@ CLS_VARIANTS = {"A": ["RA", "ra", "Ra"], "B": ["RB", "rb", "rB"],
                 "X": ["RX", "rx"], "Z": ["RZ", "rz"]}
 CLSID = {"ra": "A", "rb": "B", "rx": "X"}
 EXPOSED = {"A": ("s", "t"), "B": ("s", "t", "u"), "X": ("s",)}
-K2 = {1: "one", 2: "two"}
+# abstract key 2 is the "falsy" boundary key (0, "")
+K2 = {1: "one", 2: ""}
+KV = {1: 1, 2: 0}
 SVAL = {"v1": "alpha", "v2": "beta"}
 TVAL = {"v1": 7, "v2": 9}
 UVAL = {"v1": "ux", "v2": "uy"}
@@ -47,7 +49,8 @@ def row_of(inst, path=None):
     kb = p.keybindings
     if len(kb) == 2 and "k" in kb and "k2" in kb:
         for i, w in K2.items():
-            if kb["k"] == i and kb["k2"] == w:
+            if kb["k"] == KV[i] and kb["k2"] == w and \
+                    not isinstance(kb["k"], bool):
                 k = i
     row = dict(ns=ns, cls=cls, k=k)
     exposed = EXPOSED.get(cls, ())
@@ -68,7 +71,7 @@ def row_of(inst, path=None):
             lpn = pn.lower()
             if lpn not in ("s", "t", "u", "k", "k2"):
                 row["s"] = "UNCLASSIFIED"
-            if lpn == "k" and k in K2 and prop.value != k:
+            if lpn == "k" and k in K2 and prop.value != KV[k]:
                 row["k"] = -1
             if lpn == "k2" and k in K2 and prop.value != K2[k]:
                 row["k"] = -1
@@ -92,7 +95,8 @@ class Driver:
         return self.rng.choice(CLS_VARIANTS[c])
 
     def keyb(self, k):
-        items = [("K", self.rng.choice([Uint32(k), k])), ("K2", K2[k])]
+        items = [("K", self.rng.choice([Uint32(KV[k]), KV[k]])),
+                 ("K2", K2[k])]
         if self.rng.random() < 0.5:
             items.reverse()
         if self.rng.random() < 0.3:
@@ -233,7 +237,7 @@ class Driver:
     def do_modify(self, c):
         props = self.props(c["vals"], c["badprop"], c["cls"])
         if c["kprop"]:
-            props.append(CIMProperty("K", Uint32(c["kprop"])))
+            props.append(CIMProperty("K", Uint32(KV[c["kprop"]])))
             props.append(CIMProperty("K2", K2[c["kprop"]], type="string"))
         path = self.path(c["ns"], c["cls"], c["k"])
         # the path is assigned after construction: the CIMInstance constructor
